@@ -126,12 +126,12 @@ def build(tier, seed):
         budget = 150
     else:
         shapes = [(w, d) for w in width_lists() for d in DELIMS]
-        maxlen = 13
-        budget = 1800
+        maxlen = 15
+        budget = 3000
     for w, d in shapes:
         ml = maxlen
         if tier == "thorough" and sum(w) == 1:
-            ml = 11
+            ml = 12
         mk, rp = make(list(w), DELIMS[d], ml)
         exp = ("rows0", "rows1") if (sum(w) == 1 and DELIMS[d] is None) else ("error", "rows0", "rows1")
         queries.append(Query("C13/widths=%s/%s/len<=%d" % ("-".join(map(str, w)), d, ml), "fixed", mk,
